@@ -7,3 +7,6 @@ Definition checked_sub (a b : N) : option N := if b <=? a then Some (a - b) else
 (** [.and_then(NonZeroUsize::new)] *)
 Definition and_then_nonzero (x : option N) : option N :=
   match x with Some v => if v =? 0 then None else Some v | None => None end.
+
+(** fields of a [Link] fed to the hasher *)
+Inductive hfield := HPtr | HKind.
